@@ -163,6 +163,30 @@ func placeholderConstantRules(c *Ctx, r *Report, ph *placeholders, rule string) 
 	r.Check(err2 == nil && u != "", rule, "const:RedactedUUID", pos, "valid standard base64", fmt.Sprintf("%q is not valid base64", u))
 	okE, errE := ph.isEmail(ph.emailLit)
 	r.Check(errE == nil && okE, rule, "const:email-placeholder", "src/anonymizer.go", fmt.Sprintf("%q is accepted by the tool's own e-mail classifier (pattern and length bounds extracted from the source)", ph.emailLit), fmt.Sprintf("the e-mail placeholder %q is not accepted by the tool's own e-mail classifier", ph.emailLit))
+	// the class "e-mail-shaped" itself: the classifier's constant pattern (with its length
+	// bounds) is evaluated by the checker on probe strings; it has to agree with the HTML
+	// living standard's definition of a valid e-mail address (which the pattern of the reviewed
+	// tree is) on every probe - a narrowed or widened pattern sends addresses to the generic
+	// placeholder or ordinary strings to the e-mail placeholder
+	{
+		must := []string{"a@b", "root@localhost", "ops@mailhost", "first.last@example.com", "x+tag@sub.example.co.uk", "1@2", "u@a-b.c", "A_Z-9@EXAMPLE.ORG",
+			"a!#$%&'*+/=?^_`{|}~-@d.e", "user@xn--bcher-kva.example", "a@b.c.d.e.f", "redacted@redacted.com", "x@y-1.z0", ".a.@b"}
+		mustNot := []string{"", "plain", "@b", "a@", "a@b.", "a@.b", "a@-b.c", "a@b-.c", "a b@c.d", "a@b c", "a@b..c", "a@b@c", "\u00fc@b.c", "a@b_c.d", "a@b.c ", " a@b.c", "a@" + strings.Repeat("x", 64) + ".com", "a,b@c.d", "\"a\"@b.c"}
+		var bad []string
+		for _, pr := range must {
+			if ok, err := ph.isEmail(pr); err != nil || !ok {
+				bad = append(bad, fmt.Sprintf("%q is not classified as an e-mail address", pr))
+			}
+		}
+		for _, pr := range mustNot {
+			if ok, err := ph.isEmail(pr); err == nil && ok {
+				bad = append(bad, fmt.Sprintf("%q is classified as an e-mail address", pr))
+			}
+		}
+		r.Check(len(bad) == 0, rule, "const:email-class-probes", "src/helpers.go",
+			fmt.Sprintf("the classifier's pattern agrees with the reference definition of an e-mail address on %d probe strings (evaluated by the checker on the source constant)", len(must)+len(mustNot)),
+			"the e-mail class changed: "+strings.Join(bad, "; ")+" - such leaves get the placeholder of another class")
+	}
 	if v, ok := ph.vals["RedactedNumber"]; ok {
 		f, _ := constant.Float64Val(v)
 		r.Check((v.Kind() == constant.Float || v.Kind() == constant.Int) && f == 0, rule, "const:RedactedNumber", pos, "the number 0", "number placeholder is not 0")
